@@ -249,6 +249,125 @@ func c07a(c *Ctx) {
 		case b.sb == lineSb:
 			ok := b.arg == ssa.Value(wordPhi) || (b.method == "WriteByte" && at == "32")
 			c.Check(ok, key+"/line", pos, "the line receives only the word or a single space", "the current line receives "+pretty(at)+", expected the word or a space")
+			if ok && b.method == "WriteByte" {
+				// the space goes in front of a word that is appended to a line that already has one:
+				// exactly the condition of that word write, and "not the first word of the line"
+				var wordW ssa.Instruction
+				for _, b2 := range bcs {
+					if b2.sb == lineSb && b2.arg == ssa.Value(wordPhi) && canReachAvoidingHead(b.call, b2.call, head.Instrs[0]) {
+						wordW = b2.call
+					}
+				}
+				okSpace, whySpace := false, "no word is written to the line after this space"
+				if wordW != nil {
+					pc := c.PC(fn)
+					dS, dW := pc.canonOf(pc.At(b.call.Block())), pc.canonOf(pc.At(wordW.Block()))
+					whySpace = "the space is written under [" + dS.String() + "] and the word after it under [" + dW.String() + "]: expected the space exactly when that word is written and it is not the first word of its line (one bare flag)"
+					for _, cj := range dS.cs {
+						for _, l := range cj {
+							if strings.HasPrefix(l, "-phi(") && !strings.Contains(l, " == ") && !strings.Contains(l, " < ") && dnfEquiv(dS, dnfAndLit(dW, l)) {
+								okSpace = true
+							}
+						}
+					}
+				}
+				c.Check(okSpace, key+"/space-between-words", pos, "a space is written exactly in front of a word that is not the first of its line", whySpace)
+				// the flag means what its use says: it is false on the way back to the loop head exactly
+				// when a word was put on the line since the line was last cleared
+				var flag *ssa.Phi
+				for _, in := range head.Instrs {
+					if ph, isPhi := in.(*ssa.Phi); isPhi {
+						for _, cj := range c.PC(fn).canonOf(c.PC(fn).At(b.call.Block())).cs {
+							for _, l := range cj {
+								if l == "-"+c.term(fn, ph) {
+									flag = ph
+								}
+							}
+						}
+					}
+				}
+				if flag != nil {
+					isWordW := func(x ssa.Instruction) bool {
+						for _, b2 := range bcs {
+							if b2.call == x && b2.sb == lineSb && b2.arg == ssa.Value(wordPhi) {
+								return true
+							}
+						}
+						return false
+					}
+					isResetW := func(x ssa.Instruction) bool {
+						for _, b2 := range bcs {
+							if b2.call == x && b2.method == "Reset" && b2.sb == lineSb {
+								return true
+							}
+						}
+						return false
+					}
+					body := loopBody(head)
+					bad := ""
+					seenPhi := map[*ssa.Phi]bool{}
+					var walk func(ph *ssa.Phi, viaBack bool)
+					walk = func(ph *ssa.Phi, viaBack bool) {
+						if seenPhi[ph] {
+							return
+						}
+						seenPhi[ph] = true
+						for i, e := range ph.Edges {
+							pred := ph.Block().Preds[i]
+							if ph == flag && !head.Dominates(pred) {
+								continue // initial value
+							}
+							if !body[pred] {
+								continue
+							}
+							last := pred.Instrs[len(pred.Instrs)-1]
+							switch x := e.(type) {
+							case *ssa.Const:
+								isTrue := x.Value != nil && x.Value.String() == "true"
+								if !isTrue {
+									// false: a word write lies on every way from the head to here
+									if _, noWord := existsPath(pathQuery{from: point{head, 0}, avoid: isWordW, stopAt: func(y ssa.Instruction) bool { return !body[y.Block()] }, target: func(y ssa.Instruction) bool { return y == last && !isWordW(y) }}); noWord {
+										bad = "the flag is cleared at " + c.nearPos(last) + " although no word was put on the line on some way there"
+									}
+								} else {
+									// true: no word write since the last Reset
+									for _, b2 := range bcs {
+										if b2.sb == lineSb && b2.arg == ssa.Value(wordPhi) && strings.HasPrefix(b2.method, "Write") {
+											if _, dirty := existsPath(pathQuery{from: after(b2.call), avoid: isResetW, stopAt: func(y ssa.Instruction) bool { return y.Block() == head || !body[y.Block()] }, target: func(y ssa.Instruction) bool { return y == last }}); dirty {
+												bad = "the flag is set at " + c.nearPos(last) + " although a word was put on the line and the line was not cleared"
+											}
+										}
+									}
+								}
+							case *ssa.Phi:
+								if x == flag {
+									// unchanged: then no word was put on the line on the way here
+									for _, b2 := range bcs {
+										if b2.sb == lineSb && b2.arg == ssa.Value(wordPhi) && strings.HasPrefix(b2.method, "Write") {
+											w := b2.call
+											reaches := w.Block() == pred
+											if !reaches {
+												_, reaches = existsPath(pathQuery{from: after(w), stopAt: func(y ssa.Instruction) bool { return y.Block() == head || !body[y.Block()] }, target: func(y ssa.Instruction) bool { return y == last }})
+											}
+											if reaches {
+												bad = "the flag keeps its value on the way through " + c.nearPos(last) + " although a word was put on the line: the next word would be joined to it without a space"
+											}
+										}
+									}
+									continue
+								}
+								if body[x.Block()] {
+									walk(x, true)
+								}
+							default:
+								bad = "the flag takes the computed value " + pretty(c.term(fn, e))
+							}
+						}
+					}
+					walk(flag, true)
+					c.Check(bad == "", key+"/first-word-flag", pos, "the first-word flag is false exactly after a word was put on the line, true after the line was cleared", bad)
+				}
+			}
 		case b.sb == outSb:
 			ok := isFlush(b.call) || (b.method == "WriteByte" && at == "10")
 			writesWord := false
@@ -311,6 +430,54 @@ func c07a(c *Ctx) {
 		}
 	}
 	c.Check(okNext, "word/next-from-remaining-text", c.W.Pos(wordPhi.Pos()), "the next word is read from the text after the current position", "the next word is not read from text[pos:]")
+	// the position: starts at the offset the first scan returned and advances by exactly the offset
+	// each further scan returns (an offset that is dropped or counted twice repeats or skips text)
+	if gnw := c.Fn("parser.FontConfig.getNextWord"); gnw != nil {
+		okPos, why := false, "no scan of text[pos:] found inside the word loop"
+		for _, call := range callsToIn(fn, gnw) {
+			sl, isSlice := call.Common().Args[1].(*ssa.Slice)
+			if !isSlice || !isLoopHeader(wordPhi.Block()) || !loopBody(wordPhi.Block())[call.Block()] {
+				continue
+			}
+			posPhi, isPhi := sl.Low.(*ssa.Phi)
+			if !isPhi || posPhi.Block() != wordPhi.Block() || sl.High != nil {
+				why = "the scan inside the loop reads " + pretty(c.term(fn, sl)) + ", expected text[pos:] with pos carried by the loop"
+				continue
+			}
+			okPos = true
+			for i, e := range posPhi.Edges {
+				pred := posPhi.Block().Preds[i]
+				if posPhi.Block().Dominates(pred) {
+					bo, isAdd := e.(*ssa.BinOp)
+					okStep := false
+					if isAdd && bo.Op == token.ADD {
+						for _, pair := range [][2]ssa.Value{{bo.X, bo.Y}, {bo.Y, bo.X}} {
+							if ex, isEx := pair[1].(*ssa.Extract); isEx && pair[0] == ssa.Value(posPhi) && ex.Index == 0 && ex.Tuple == call.(ssa.Value) {
+								okStep = true
+							}
+						}
+					}
+					if !okStep {
+						okPos, why = false, "inside the loop the position becomes "+pretty(c.term(fn, e))+", expected pos + (offset returned by this iteration's scan)"
+					}
+				} else {
+					ex, isEx := e.(*ssa.Extract)
+					first := false
+					if isEx && ex.Index == 0 {
+						if fc, isCall := ex.Tuple.(*ssa.Call); isCall && callee(fc) == gnw {
+							if _, sliced := fc.Call.Args[1].(*ssa.Slice); !sliced {
+								first = true
+							}
+						}
+					}
+					if !first {
+						okPos, why = false, "the position starts at "+pretty(c.term(fn, e))+", expected the offset returned by the first scan of the whole text"
+					}
+				}
+			}
+		}
+		c.Check(okPos, "word/position-advances-by-returned-offset", c.W.Pos(wordPhi.Pos()), "pos starts at the first scan's offset and grows by each scan's offset", why)
+	}
 }
 
 func canReachAvoidingHead(a, b, head ssa.Instruction) bool {
@@ -485,6 +652,18 @@ func c07c(c *Ctx) {
 							}
 						}
 					}
+				}
+			}
+			if b.name == "fontId" && strings.HasSuffix(t, ".DefaultFontID") && isInstr {
+				// the config's default font is the last resort: only when the command line named none
+				okPrec := false
+				for _, l := range c.mustLits(fn, in.Block()) {
+					if l == `+($0.defaultFontID == "")` || l == `-(0 < builtin:len($0.defaultFontID))` || l == `-($0.defaultFontID != "")` {
+						okPrec = true
+					}
+				}
+				if !okPrec {
+					bad = "the font config's default font is used without testing that no default font was given on the command line (-f takes precedence); guards: " + fmt.Sprint(prettyAll(c.mustLits(fn, in.Block())))
 				}
 			}
 			if strings.Contains(t, ".Fonts[") {
@@ -662,6 +841,83 @@ func c07d(c *Ctx) {
 				c.Check(okG, fmt.Sprintf("%s/depth-counter[%s]", c.W.FuncKey(fn), pretty(pt)), c.W.Pos(bo.Pos()), "the depth counter is decremented only where it is positive", "the nesting depth "+pretty(pt)+" is decremented without a test that it is positive: an unbalanced closing delimiter makes it negative and the 'depth == 0' tests never hold again")
 			}
 		})
+	}
+	// (iii) the escape flag of the word scanner: set by an unescaped backslash, kept only while the
+	// escaped character is being judged, cleared by every other character (a flag that survives an
+	// ordinary character turns a later 'n' or 'p' into a line break)
+	if gn := c.Fn("parser.FontConfig.getNextWord"); gn != nil {
+		nFlag := 0
+		for _, h := range gn.Blocks {
+			if !isLoopHeader(h) {
+				continue
+			}
+			for _, in := range h.Instrs {
+				ph, isPhi := in.(*ssa.Phi)
+				if !isPhi {
+					break
+				}
+				if b, ok := ph.Type().Underlying().(*types.Basic); !ok || b.Kind() != types.Bool {
+					continue
+				}
+				type lf struct {
+					v    ssa.Value
+					must []string
+				}
+				var leaves []lf
+				for i, e := range ph.Edges {
+					if h.Dominates(h.Preds[i]) {
+						for _, g := range c.guardedLeaves(gn, e, c.edgeMust(gn, h.Preds[i], h)) {
+							leaves = append(leaves, lf{g.v, g.must})
+						}
+					}
+				}
+				isBackslash := func(must []string) bool {
+					for _, l := range must {
+						if strings.HasPrefix(l, "+(") && strings.HasSuffix(l, " == 92)") {
+							return true
+						}
+					}
+					return false
+				}
+				isEscape := false
+				for _, l := range leaves {
+					if k, ok := l.v.(*ssa.Const); ok && k.Value != nil && k.Value.String() == "true" && isBackslash(l.must) {
+						isEscape = true
+					}
+				}
+				// ... and cleared somewhere (the 'found' flags of the scanner are only ever set)
+				cleared := false
+				for _, l := range leaves {
+					if k, ok := l.v.(*ssa.Const); ok && k.Value != nil && k.Value.String() == "false" {
+						cleared = true
+					}
+				}
+				if !isEscape || !cleared {
+					continue
+				}
+				nFlag++
+				pt := c.term(gn, ph)
+				bad := ""
+				for _, l := range leaves {
+					switch x := l.v.(type) {
+					case *ssa.Const:
+						if x.Value != nil && x.Value.String() == "true" && !isBackslash(l.must) {
+							bad = "the escape flag is set although the character is not a backslash (under " + fmt.Sprint(prettyAll(l.must)) + ")"
+						}
+					default:
+						if l.v == ssa.Value(ph) {
+							if !hasLit(l.must, "+"+pt) {
+								bad = "the escape flag keeps its value past a character that is neither a backslash nor the character being escaped (under " + fmt.Sprint(prettyAll(l.must)) + "): an earlier backslash would still escape a later letter"
+							}
+						} else {
+							bad = "the escape flag takes the computed value " + pretty(c.term(gn, l.v))
+						}
+					}
+				}
+				c.Check(bad == "", "getNextWord/escape-flag", c.W.Pos(ph.Pos()), "the escape flag is set by a backslash, kept only while the escaped character is judged, cleared otherwise", bad)
+			}
+		}
+		c.Check(nFlag == 1, "getNextWord/escape-flag/site", c.W.FuncPos(gn), "the word scanner has one escape flag", fmt.Sprintf("found %d boolean loop variables set by a backslash in getNextWord, expected 1", nFlag))
 	}
 	c.Check(nCounters >= 3, "depth-counters", "-", fmt.Sprintf("%d guarded decrements of zero-tested loop counters in package parser", nCounters), "fewer depth counters than confirmed by hand")
 }
